@@ -30,7 +30,7 @@ func H_C18_BeaconKeys() {
 	rt.Reach("end")
 }
 
-var addrLens = []int{1, 20, 32}
+var addrLens = []int{1, 20, 255}
 var addrLensThorough = []int{1, 2, 19, 20, 21, 32, 254, 255}
 
 func anyAddrLen() int {
@@ -41,7 +41,7 @@ func anyAddrLen() int {
 }
 
 // H_C18_EntKeys: enterprise store keys: 64-bit order ids, addresses of several lengths with
-// symbolic bytes (quick: 1/20/32 bytes, thorough: 1,2,19,20,21,32,254,255).
+// symbolic bytes (quick: 1/20/255 bytes, thorough: 1,2,19,20,21,32,254,255).
 func H_C18_EntKeys() {
 	id1, id2 := rt.U64("id1"), rt.U64("id2")
 	rt.Assert("order-key-injective", rt.Implies(bytes.Equal(enttypes.PurchaseOrderKey(id1), enttypes.PurchaseOrderKey(id2)), id1 == id2))
